@@ -29,7 +29,7 @@ def damage_options(size, P):
 
 def pick_tree(rng, P, allow_single=True):
     A = alphabet(P)
-    shapes = ["D2", "D3", "D4", "D1", "D2n", "DN", "DNf", "DU", "D5", "DNFC", "DS", "DM", "DX"] + (["S1"] if allow_single else [])
+    shapes = ["D2", "D3", "D4", "D1", "D2n", "DN", "DNf", "DU", "D5", "DNFC", "DS", "DM", "DX", "DSYM", "DEXT", "DPAD"] + (["S1"] if allow_single else [])
     while True:
         sh = rng.choice(shapes)
         k = 1 if sh == "S1" else len(SHAPES[sh])
@@ -150,7 +150,7 @@ class RecheckProp(Prop):
         import copy
         from .mutate import first
         out = []
-        for r in first(recs, lambda r: r["status"] == "ok" and not r["nostream"] and len(r["stream"]) >= 1):
+        for r in first(recs, lambda r: r["status"] == "ok" and not r.get("nostream", True) and len(r["stream"]) >= 1):
             if self.pid == "C16":
                 m = copy.deepcopy(r)
                 m["stream"][0][0] = not m["stream"][0][0]
@@ -159,7 +159,15 @@ class RecheckProp(Prop):
                 m["ppm"] = m["ppm"] - 5000 if m["ppm"] >= 5000 else m["ppm"] + 5000
                 m["ppm2"] = m["ppm"]
                 out.append((m, "C16.ppm"))
-        for r in first(recs, lambda r: r["status"] == "ok"):
+        if self.pid == "C05":
+            for r in first(recs, lambda r: r.get("op") == "findroot" and r["status"] == "ok" and len(r["got"]) > 1):
+                m = copy.deepcopy(r)
+                m["got"] = m["got"][:-1]
+                out.append((m, "M05.findroot"))
+                m = copy.deepcopy(r)
+                m["ppm"] = 0
+                out.append((m, "C05.findroot"))
+        for r in first(recs, lambda r: r["status"] == "ok" and r.get("op") != "findroot"):
             if self.pid == "C05":
                 m = copy.deepcopy(r)
                 m["ppm"] = m["ppm2"] = 99999999
@@ -191,9 +199,15 @@ class RecheckProp(Prop):
 
     def extra_coverage(self, tier, cases, recs):
         sc = getattr(self, "_scaled", None)
-        return {"scaled_world_replay": sc} if sc else {}
+        out = {"scaled_world_replay": sc} if sc else {}
+        if getattr(self, "_findroot", None):
+            out["findroot_universe_replay"] = self._findroot
+        return out
 
     def sample(self, case, rec):
+        if case.get("op") == "findroot":
+            return {"findroot_world": case["world"], "version": case["version"], "path_mode": case["path_mode"],
+                    "found": rec.get("got") if rec else None}
         if case.get("scaled"):
             return {"scaled_world": True, "version": case["version"], "P": case["P"], "recs": case["recs"],
                     "disk": case["disk"], "stream": rec.get("stream") if rec else None}
@@ -232,6 +246,13 @@ class C16(RecheckProp):
             out.append(c)
         out += big_piece_cases(self, rng, cl, [[], [{"file": 0, "kind": "flip", "arg": 2 ** 20 + 7}],
                                                [{"file": 0, "kind": "trunc", "arg": 2 ** 21}]])
+        # payload members reached through symbolic links (inside the root / leading outside it), intact and damaged
+        for v in (1, 2, 3):
+            for sh in ("DSYM", "DEXT"):
+                for dn in (0, 1):
+                    P = self.plens(tier)[v % 2]
+                    A = [a for a in alphabet(P) if a]
+                    out.append(self.mk(rng, P, v, "own", dn, cl, tree=(sh, tuple(rng.choice(A) for _ in SHAPES[sh]))))
         # the model-checked universe itself, replayed into the real checker (quick: the universe of the
         # quick config, sampled; thorough: the universe of the 3-file config completely)
         cfg1, cfg2 = ("MC_FeedChecker_quick.cfg", "MC_HashChecker_quick.cfg") if tier != "thorough" else (
@@ -311,7 +332,19 @@ class C05(RecheckProp):
     level_text = ("TLC checks on the recheck models that intact content yields exactly the full share, and validates "
                   "recorded rechecks of intact payloads for own and reference-encoded metafiles (v1 sorted / "
                   "unsorted / BEP 47 padded, v2, hybrid with and without trailing pad, single-file), each through "
-                  "content path = root and = parent (group clause: same verdict).")
+                  "content path = root and = parent (group clause: same verdict). The content-root search itself is "
+                  "modelled in FindRoot.tla (payloads below / above directories that carry the payload's own name; the "
+                  "pinned commit and the first repair are must-fail variants); its whole universe is replayed into the "
+                  "real Checker from the root and from the parent, TLC comparing the root found with the model's.")
+
+    def mc(self, tier):
+        return RecheckProp.mc(self, tier) + [
+            {"module": "FindRoot.tla", "cfg": "MC_FindRoot.cfg", "workers": 2,
+             "what": "find_root / _holds_content (fixed): payload root found from the root and from the parent, 180 worlds"},
+            {"module": "FindRoot.tla", "cfg": "MC_FindRoot_code.cfg", "expect": "fail", "workers": 2,
+             "what": "pinned commit: a parent directory named like the payload is taken for the root"},
+            {"module": "FindRoot.tla", "cfg": "MC_FindRoot_exists.cfg", "expect": "fail", "workers": 2,
+             "what": "first repair (5badd88): exists() instead of is_file() accepts the parent of x/x/x"}]
     rule = ("cases = (version, metafile source, P, shape, sizes from A(P) incl. empty files and exact piece "
             "multiples) x path mode {root, parent}; non-trivial = tree has an empty file or a size that is a "
             "multiple of P or is single-file")
@@ -337,6 +370,10 @@ class C05(RecheckProp):
                 for P, tr in ((2 * M, ("S1", (3 * M,))), (2 * M, ("D2", (2 * M + 1, 5))), (M, ("D2", (M + 5, 3))), (4 * M, ("S1", (5 * M + 1,))),
                               (8 * M, ("D3", (M + 7, 9 * M + 3, 100 * 1024)))):
                     trees.append((v, src, P, tr))
+        for v in (1, 2, 3):             # payload members reached through symbolic links
+            for sh in ("DSYM", "DEXT", "DPAD"):
+                A = [a for a in alphabet(B) if a]
+                trees.append((v, "own", B, (sh, tuple(rng.choice(A) for _ in SHAPES[sh]))))
         # hundreds of files, deep nesting, a thousand pieces
         small = [0, 1, 2, 3, 5, B - 1, B, B + 1]
         for v in (1, 2, 3):
@@ -358,6 +395,7 @@ class C05(RecheckProp):
                 c = dict(base)
                 c["path_mode"] = mode
                 out.append(c)
+        out += self.findroot_cases()
         lim = 20000 if tier == "thorough" else 1000
         sc = scaled_universe("MC_FeedChecker_quick.cfg", 1, ["C05.hundred"], rng, lim) + \
             scaled_universe("MC_HashChecker_quick.cfg", 2, ["C05.hundred"], rng, lim)
@@ -366,7 +404,31 @@ class C05(RecheckProp):
         self._scaled = {"cases": len(sc), "complete": False}
         return out + sc
 
+    def findroot_cases(self):
+        """The universe of FindRoot.tla (payloads under / over directories that carry the payload's own
+        name), emitted by TLC, replayed into the real Checker from the payload root and from its parent."""
+        from . import core, tlaval
+        from .core import Machinery
+        r = core.run_tlc("FindRoot.tla", "Sim_FindRoot.cfg", workers=1, timeout=600)
+        if r.error or r.violation:
+            raise Machinery("FindRoot emission failed: %s" % (r.error or r.violation))
+        seen, out = set(), []
+        for _, w in tlaval.find_tagged(r.out, "WORLD"):
+            key = repr(w)
+            if key in seen:
+                continue
+            seen.add(key)
+            kind = w["meta"]["kind"]
+            for v in {"files": (1, 3), "length": (1, 3), "tree": (2,)}[kind]:
+                for mode in ("root", "parent"):
+                    out.append({"op": "findroot", "world": w, "version": v, "path_mode": mode, "group": "none",
+                                "clauses": ["M05.findroot", "C05.findroot"]})
+        self._findroot = {"worlds": len(seen), "cases": len(out), "cmd": r.cmd}
+        return out
+
     def nontrivial(self, case):
+        if case.get("op") == "findroot":
+            return ("findroot", repr(case["world"]), case["version"], case["path_mode"])
         if case.get("scaled"):
             return RecheckProp.nontrivial(self, case)
         sizes = [f["size"] for f in case["tree"]["files"]]
